@@ -501,6 +501,9 @@ type FaultErr struct {
 	timeout bool
 	list    bool
 	op      bool
+	// sentinel: when set, the error on the wire is this well-known value itself
+	// (io.ErrUnexpectedEOF, io.ErrShortWrite, ...) and E is that value
+	sentinel error
 }
 
 func (e *FaultErr) Error() string {
@@ -511,6 +514,15 @@ func (e *FaultErr) Error() string {
 }
 func (e *FaultErr) Unwrap() error { return e.Inner }
 
+// E is the value errors.Is must find: the sentinel when the wire error is one,
+// otherwise the FaultErr itself.
+func (e *FaultErr) E() error {
+	if e.sentinel != nil {
+		return e.sentinel
+	}
+	return e
+}
+
 // Wire is the value the faulty reader or writer actually returns: E itself,
 // or (one time in eight) an ErrList holding E - an error whose dynamic type is
 // a slice and therefore NOT comparable (go/scanner.ErrorList, a joined error):
@@ -519,6 +531,10 @@ func (e *FaultErr) Unwrap() error { return e.Inner }
 func (e *FaultErr) Wire() error {
 	if e.list {
 		return ErrList{e}
+	}
+	if e.sentinel != nil {
+		// the reader fails with one of the well-known error VALUES themselves
+		return e.sentinel
 	}
 	if e.op {
 		// what a net.Conn really returns: an *net.OpError around the cause. THAT value
@@ -583,6 +599,10 @@ func NewFaultErr(c *sim.Ctx, what string) (*FaultErr, string) {
 	} else if c.T.Bool(1, 6) {
 		e.op = true
 		kind += "+delivered-as-*net.OpError"
+	} else if c.T.Bool(1, 6) {
+		ss := []error{io.ErrUnexpectedEOF, io.ErrShortWrite, io.ErrClosedPipe, io.ErrNoProgress, os.ErrDeadlineExceeded, syscall.ECONNRESET, syscall.EPIPE, context.Canceled, net.ErrClosed}
+		e.sentinel = ss[c.T.Int(len(ss))]
+		kind = "the-well-known-value-itself:" + e.sentinel.Error()
 	}
 	c.Count("fault.error-kind:" + kind)
 	return e, kind
